@@ -135,8 +135,8 @@ CONSTANT CheckRef     \* TRUE: a step is only taken if the reference layer agree
 SessExtMon == Has(Sc, "extmon") /\ Sc.extmon
 
 \* Aggregated pattern subscriptions (C16 on a live session): the server batches their events over an
-\* interval, so the recorded batches are not the batches of single steps.  For these streams cons[x] is
-\* the SEQUENCE of <<kind, key, value>> the specification has delivered so far; at the end the recorded
+\* interval, so the recorded batches are not the batches of single steps.  For these streams cons[x] is,
+\* per key, the SEQUENCE of <<kind, key, value>> the specification has delivered so far; at the end the recorded
 \* events must be, key by key, that sequence (nothing lost, duplicated or reordered; the snapshot first).
 Aggs == IF Has(Sc, "aggs") THEN ToSetOfSeq(Sc.aggs) ELSE {}
 InitCons(x, i) == IF Has(Rec[i], "aggs") /\ x \in ToSetOfSeq(Rec[i].aggs) THEN <<>> ELSE 0
@@ -155,16 +155,26 @@ RecFlatOf(x) ==
     THEN [i \in DOMAIN Sc.aggflat[x] |-> <<Sc.aggflat[x][i][1], Sc.aggflat[x][i][2], Sc.aggflat[x][i][3]>>]
     ELSE RecFlat(Sc.streams[x])
 PerKey(seq, k) == SelectSeq(seq, LAMBDA e : e[2] = k)
+\* what the specification has delivered to an aggregated subscription: key -> sequence of <<kind, key, value>>
+\* (per key, because only the order per key is compared: deliveries to different keys commute, and a single
+\* global sequence would make every order of them a state of its own for the search)
+ConsKey(f, k) == IF k \in DOMAIN f THEN f[k] ELSE <<>>
+RECURSIVE AddAll(_, _)
+AddAll(f, seq) ==
+  IF seq = <<>> THEN f
+  ELSE LET e == Head(seq)
+           g == IF e[2] \in DOMAIN f THEN [f EXCEPT ![e[2]] = Append(@, e)] ELSE (e[2] :> <<e>>) @@ f
+       IN AddAll(g, Tail(seq))
 IsPrefixSeq(a, b) == Len(a) <= Len(b) /\ SubSeq(b, 1, Len(a)) = a
 AggOK(x) ==
   LET rec == RecFlatOf(x)
-      keys == {rec[i][2] : i \in DOMAIN rec} \cup {cons[x][i][2] : i \in DOMAIN cons[x]}
+      keys == {rec[i][2] : i \in DOMAIN rec} \cup DOMAIN cons[x]
   IN /\ \A i \in DOMAIN Sc.streams[x] :        \* a batch holds no key twice
           Cardinality({Sc.streams[x][i].kvs[j][1] : j \in DOMAIN Sc.streams[x][i].kvs}) = Len(Sc.streams[x][i].kvs)
      /\ \A k \in keys :
           IF \E i \in DOMAIN Sc.exact : Sc.exact[i] = x
-            THEN PerKey(rec, k) = PerKey(cons[x], k)
-            ELSE IsPrefixSeq(PerKey(rec, k), PerKey(cons[x], k))
+            THEN PerKey(rec, k) = ConsKey(cons[x], k)
+            ELSE IsPrefixSeq(PerKey(rec, k), ConsKey(cons[x], k))
 
 InitScenario(i) ==
   /\ sc' = i
@@ -187,17 +197,18 @@ NewCons(X, Y, o) ==
      LET ids == {id \in DOMAIN o.ev : IdStr(id) = x} IN
      IF ids = {} THEN cons[x]
      ELSE LET id == CHOOSE i \in ids : TRUE IN
-          IF x \in Aggs THEN cons[x] \o FlatBatches(o.ev[id])
+          IF x \in Aggs THEN AddAll(cons[x], FlatBatches(o.ev[id]))
           ELSE Explain(Sc.streams[x], cons[x], o.ev[id], SubKind(X, Y, id), Exact(id))]
 \* early pruning for aggregated streams: what the specification has delivered so far and what was recorded must
 \* stay comparable key by key (the delivered sequence only grows, so an incomparable pair never recovers; without
 \* this a wrong early choice of the search is only refuted by AggOK at the very end)
 AggCompat(x, c) ==
-  \A k \in {c[i][2] : i \in (Len(cons[x]) + 1)..Len(c)} :
-     LET a == PerKey(RecFlatOf(x), k)  b == PerKey(c, k) IN IsPrefixSeq(a, b) \/ IsPrefixSeq(b, a)
+  \A k \in {q \in DOMAIN c : ConsKey(c, q) # ConsKey(cons[x], q)} :
+     \* (IF, not a disjunction: TLC would split a disjunction inside an action into branches of their own)
+     LET a == PerKey(RecFlatOf(x), k)  b == ConsKey(c, k) IN IF IsPrefixSeq(a, b) THEN TRUE ELSE IsPrefixSeq(b, a)
 DeliverOK(X, Y, o) ==
   /\ \A x \in DOMAIN cons \ Aggs : NewCons(X, Y, o)[x] # -1
-  /\ \A x \in Aggs \cap DOMAIN cons : NewCons(X, Y, o)[x] = cons[x] \/ AggCompat(x, NewCons(X, Y, o)[x])
+  /\ \A x \in Aggs \cap DOMAIN cons : IF NewCons(X, Y, o)[x] = cons[x] THEN TRUE ELSE AggCompat(x, NewCons(X, Y, o)[x])
   /\ \A id \in DOMAIN o.ev : IdStr(id) \notin DOMAIN cons => ~Exact(id)
 
 NewOutc(o) ==
